@@ -107,6 +107,7 @@ def frac_ambiguous(vals_sorted_clipped, p):
 def select_level(rep, rng, quick):
     """_select_number_eigencomponents against its own TRANSLATION (Gen/Select.v, regenerated on this run) executed in Q."""
     from FDApy.misc.utils import _select_number_eigencomponents
+    rng = np.random.default_rng([C.seed(), 1, 5])       # its own stream: the datasets of the other levels do not move
     run = C.CoqRun("C01", IMPORTS.replace("Tie.C01.", "Gen.Select Tie.C01."), shard=1)
     todo = []
     for i in range(30 if quick else 300):
@@ -379,7 +380,10 @@ def mfpca_pairing_monitor(rep, data, default_exp):
         f = MFPCA(n_components=K, method="covariance",
                   univariate_expansions=[({"method": "UFPCA"} if default_exp else {"method": "UFPCA", "n_components": 3})
                                          for _ in data.data])
-        f.fit(data, method_smoothing=None)
+        try:
+            f.fit(data, method_smoothing=None)
+        except ModuleNotFoundError:
+            return          # a basis Gram matrix that is not numerically positive definite needs an optional dependency (statsmodels)
         E = [np.asarray(c.values, float) for c in f.eigenfunctions.to_grid().data]
         grids = [np.asarray(c.argvals["input_dim_0"], float) for c in data.data]
         nus = np.asarray(f.eigenvalues, float)
@@ -393,6 +397,46 @@ def mfpca_pairing_monitor(rep, data, default_exp):
                       f"{np.max(np.abs(G - np.eye(K))):.3g}): a component is not built from its own block of the eigenvector",
                       {"level": "api", "estimator": "MFPCA", "n_components": K, "n_functional": len(E),
                        "data_values": [C.hexf(np.asarray(c.values)) for c in data.data]})
+
+
+def mfpca_nested_monitor(rep, data):
+    """MFPCA with the size of the univariate expansions left to its default: asking for k components gives the first k of
+    what asking for k + 1 gives (both are the first entries of one and the same full decomposition) — judged without the
+    full fit, which may need an optional dependency when every univariate component is kept."""
+    fits = {}
+    for method in ("covariance", "inner-product"):
+        for k in (1, 2, 3):
+            try:
+                fits[(method, k)] = api_fit("MFPCA", method, data, k, default_exp=True)
+            except Exception:  # noqa: BLE001
+                fits[(method, k)] = None
+        for k in (1, 2):
+            a_, b_ = fits[(method, k)], fits[(method, k + 1)]
+            if a_ is None or b_ is None or len(a_[0]) != k or len(b_[0]) != k + 1:
+                continue
+            scale = float(np.max(np.abs(b_[0])))
+            if scale <= 0 or not (np.all(np.isfinite(a_[1])) and np.all(np.isfinite(b_[1]))):
+                continue
+            if np.any(np.diff(b_[0]) > 0):
+                continue            # unsorted spectrum: finding F1, decided by the main comparison
+            rep.case(("mfpca-nested", method, k, np.asarray(data.data[0].values).tobytes()), kind=f"MFPCA-default-expansions/{method}")
+            fsc = max(1.0, float(np.max(np.abs(b_[1]))))
+            dev_v = float(np.max(np.abs(a_[0] - b_[0][:k])))
+            if a_[1].shape[1] != b_[1].shape[1]:
+                rep.violation(f"MFPCA({method}), default univariate expansion sizes: the eigenfunctions of the n_components={k} fit live in "
+                              f"a univariate expansion of another size ({a_[1].shape[1]} coefficients) than those of the n_components={k + 1} "
+                              f"fit ({b_[1].shape[1]}): the two are not prefixes of one full decomposition",
+                              {"level": "api", "estimator": "MFPCA", "method": method, "k": k,
+                               "data_values": [C.hexf(np.asarray(c.values)) for c in data.data]})
+                continue
+            dev_f = max(min(float(np.max(np.abs(a_[1][j] - b_[1][j]))), float(np.max(np.abs(a_[1][j] + b_[1][j])))) for j in range(k))
+            if dev_v > 1e-8 * scale or dev_f > 1e-6 * fsc:
+                rep.violation(f"MFPCA({method}), default univariate expansion sizes: n_components={k} does not return the first {k} "
+                              f"entries of what n_components={k + 1} returns (eigenvalues differ by {dev_v:.3g}, eigenfunctions by "
+                              f"{dev_f:.3g}): the k-fit is not a prefix of one full decomposition",
+                              {"level": "api", "estimator": "MFPCA", "method": method, "k": k,
+                               "eigenvalues_k": a_[0].tolist(), "eigenvalues_k_plus_1": b_[0].tolist(),
+                               "data_values": [C.hexf(np.asarray(c.values)) for c in data.data]})
 
 
 def pairing_monitor(rep, data, val, fun, s, grid):
@@ -454,11 +498,12 @@ def api_level(rep, rng, quick):
                 comps_mv.append(make_dense(rng, n, m + 3, "nonuniform", rough))      # three components of different sizes
             data = MultivariateFunctionalData(comps_mv)
             mfpca_pairing_monitor(rep, data, default_exp=(i % 8 == 7))
+            mfpca_nested_monitor(rep, data)
         if kind == "UFPCA" and grid != "irregular":
             refit_monitor(rep, rng, data, n, m, grid)
-        for method in ("covariance", "inner-product"):
+        for method, dexp in [(mt, de) for de in ((False, True) if kind == "MFPCA" else (False,)) for mt in ("covariance", "inner-product")]:
             try:
-                full_val, full_fun = api_fit(kind, method, data, None, default_exp=(i % 8 == 7))
+                full_val, full_fun = api_fit(kind, method, data, None, default_exp=dexp)
                 full_sc = api_fit.scores
             except Exception as e:  # noqa: BLE001
                 rep.notes.append(f"{kind}/{method} full fit raised {type(e).__name__}: {e}"[:200])
@@ -478,7 +523,10 @@ def api_level(rep, rng, quick):
                 if isinstance(s, int) and s > rank:
                     continue
                 try:
-                    val, fun = api_fit(kind, method, data, s, default_exp=(i % 8 == 7))
+                    val, fun = api_fit(kind, method, data, s, default_exp=dexp)
+                except ModuleNotFoundError as e:
+                    rep.notes.append(f"{kind}/{method} n_components={s} needs an optional dependency: {e}"[:160]) if len(rep.notes) < 12 else None
+                    continue
                 except Exception as e:  # noqa: BLE001
                     rep.violation(f"{kind}({method}) with n_components={s} raised {type(e).__name__}",
                                   {"level": "api", "estimator": kind, "method": method, "sel": s,
